@@ -15,16 +15,25 @@ vars == <<l, nt>>
 
 Trace == ndJsonDeserialize(IOEnv.OBS_FILE)
 Has(r, f) == f \in DOMAIN r
+\* TLC's "=" is partial: comparing a string with a record or a boolean is an evaluation error, and
+\* the "Val" field of literals is polymorphic (string, boolean, record).  Projected ASTs are
+\* therefore compared structurally, kinds first (total).
+KindOfV(x) == LET c == SubSeq(ToString(x), 1, 1) IN IF c = "[" THEN "rec" ELSE IF c = "<" THEN "seq" ELSE "atom"
+RECURSIVE SameAst(_, _)
+SameAst(a, b) == LET ka == KindOfV(a) kb == KindOfV(b) IN
+  IF ka # kb THEN FALSE
+  ELSE IF ka = "atom" THEN ToString(a) = ToString(b)
+  ELSE DOMAIN a = DOMAIN b /\ \A f \in DOMAIN a : SameAst(a[f], b[f])
 
 Verdict(r) ==
   LET o == r.obs IN
   IF Has(o, "panic") \/ Has(o, "harness_panic") THEN [ok |-> FALSE, class |-> "panic", sig |-> "parse"]
   ELSE IF Has(o, "err") THEN [ok |-> FALSE, class |-> "rejected", sig |-> ""]
-  ELSE IF o.tree # r.want THEN [ok |-> FALSE, class |-> "wrong-grouping",
+  ELSE IF ~SameAst(o.tree, r.want) THEN [ok |-> FALSE, class |-> "wrong-grouping",
                                       sig |-> "root " \o (IF Has(o.tree, "Op") THEN o.tree.Op ELSE o.tree.k) \o " wanted " \o (IF Has(r.want, "Op") THEN r.want.Op ELSE r.want.k)]
   ELSE IF Has(o, "rerr") THEN [ok |-> FALSE, class |-> "reparse-rejected", sig |-> ""]
-  ELSE IF o.reparse = o.tree THEN [ok |-> TRUE, class |-> "ok", sig |-> ""]
-  ELSE IF HasSignedRhsUnderL5(o.tree) /\ o.reparse = Reparse(o.tree)
+  ELSE IF SameAst(o.reparse, o.tree) THEN [ok |-> TRUE, class |-> "ok", sig |-> ""]
+  ELSE IF HasSignedRhsUnderL5(o.tree) /\ SameAst(o.reparse, Reparse(o.tree))
        THEN [ok |-> FALSE, class |-> "Dev_UnaryMinusNoParen", sig |-> ""]
   ELSE [ok |-> FALSE, class |-> "reparse-regroup", sig |-> ""]
 
